@@ -93,38 +93,10 @@ def rule_rules(ctx, R, F):
     by_val = {v: k for k, v in types.items()}
     sd = F.func('randomx::SuperscalarInstruction::selectDestination')
     where = '%s:%d' % (sd['file'], sd['line'])
-    ifs = [x for x in walk(sd['body']) if x['k'] == 'If']
-    conj = []
-
-    def flat(n):
-        n = strip_all(n)
-        if n['k'] == 'Bin' and n['op'] == '&&':
-            flat(n['l'])
-            flat(n['r'])
-        else:
-            conj.append(n)
-    loops = [x for x in walk(sd['body']) if x['k'] == 'For']
-    lv = loops[0]['init']['d'][0]['id'] if loops else None
-    if ifs:
-        flat(ifs[0]['c'])
-    with astq.renaming({lv: 'I', sd['params'][0]['id']: 'CYCLE', sd['params'][1]['id']: 'CHAIN'}), astq.nocasts():
-        cs = [showv(c) for c in conj]
-    need = {
-        'ready at the cycle': '(P2[I].latency <= CYCLE)',
-        'dst != src unless reuse allowed': '(this->canReuse_ || (I != this->src_))',
-        'dst != r5 for IADD_RS': '((this->info_.getType() != %d) || (I != 5))' % types['IADD_RS'],
-    }
-    with astq.renaming({lv: 'I', sd['params'][0]['id']: 'CYCLE', sd['params'][1]['id']: 'CHAIN', sd['params'][2]['id']: 'P2'}), astq.nocasts():
-        cs = [showv(c) for c in conj]
-    cs_n = [re.sub(r'\(randomx::SuperscalarInstructionType\)', '', c) for c in cs]
-    for what, pat in need.items():
-        R.check(pat in cs_n, 'selectDestination: ' + what, where, expected=pat, found=cs_n)
-    R.check(loops and loop_trip(loops[0]) == 8, 'selectDestination considers r0-r7', where, expected=8, found=loop_trip(loops[0]) if loops else None)
-    pb = [c for c in calls(ifs[0]['t']) if c.get('name') == 'push_back'] if ifs else []
-    R.check(len(pb) == 1 and ref_id(pb[0]['a'][0]) == lv, 'only admissible registers are candidates', where, expected='availableRegisters.push_back(i) under the condition', found=len(pb))
-    # canReuse_ set only for rows without the dst != src rule that have a source
     cr = F.func('randomx::SuperscalarInstruction::create')
     cases = switch_cases(F, cr, by_val)
+    rule_dest(ctx, R, F, sd, cr, cases, types, where)
+    # canReuse_ set only for rows without the dst != src rule that have a source
     reuse = sorted(t_ for t_, body in cases.items() if t_ != 'default' and any(x['k'] == 'Assign' and show(x['l']) == 'this->canReuse_' and val(x['r']) == 1 for s in body for x in walk(s)))
     exp_reuse = sorted(n for n, rl in rules.items() if 'dst != src' not in rl and n in ('IMULH_R', 'ISMULH_R'))
     R.eq('canReuse_ cases', '%s:%d' % (cr['file'], cr['line']), exp_reuse, reuse)
@@ -185,6 +157,96 @@ def rule_rules(ctx, R, F):
         a = [showv(s) for s in ti['body']['s']]
     exp = ['(OUT.opcode = this.getType())', '(OUT.dst = this->dst_)', '(OUT.src = ((this->src_ >= 0) ? this->src_ : this->dst_))', 'OUT.setMod(this->mod_)', 'OUT.setImm32(this->imm32_)']
     R.eq('toInstr', '%s:%d' % (ti['file'], ti['line']), exp, a)
+
+
+def rule_dest(ctx, R, F, sd, cr, cases, types, where):
+    """selectDestination admits register i exactly when the five conditions of spec 6.3.4 hold -- decided by evaluating the admission paths of the
+    loop body for every combination of the quantities the conditions mention (however the condition is written: one conjunction, nested ifs, early continues)"""
+    import decoder as _dec
+    import itertools
+    loops = [x for x in walk(sd['body']) if x['k'] in ('For', 'While')]
+    if not loops:
+        raise AnalysisBroken('SS-RULES: selectDestination has no loop over the registers')
+    lp = loops[0]
+    R.check(loop_trip(lp) == 8, 'selectDestination considers r0-r7', where, expected=8, found=loop_trip(lp))
+    lv = lp['init']['d'][0]['id'] if lp.get('init') and lp['init'].get('d') else None
+    if lv is None:
+        raise AnalysisBroken('SS-RULES: induction variable of the register loop in selectDestination not found')
+    ren = {lv: 'I', sd['params'][0]['id']: 'CYCLE', sd['params'][1]['id']: 'CHAIN', sd['params'][2]['id']: 'REGS'}
+    # (type, opGroup) pairs that create() can produce
+    pairs = set()
+    for t_, body in cases.items():
+        if t_ == 'default' or t_ not in types:
+            continue
+        for st in body:
+            for x in walk(st):
+                if x['k'] == 'Assign' and show(x['l']) == 'this->opGroup_' and val(x['r']) is not None:
+                    pairs.add((types[t_], val(x['r'])))
+    if len(pairs) < len(types):
+        raise AnalysisBroken('SS-RULES: create() assigns opGroup_ in %d of %d cases' % (len(pairs), len(types)))
+    groups = sorted(set(g for _, g in pairs))
+    inval = F.enum('randomx::SuperscalarInstructionType').get('INVALID', -1)
+    mul, adds = types['IMUL_R'], types['IADD_RS']
+    r5 = 5
+
+    class Unknown(Exception):
+        pass
+
+    def ev(n, env):
+        n = strip_all(n)
+        v_ = val(n)
+        if v_ is not None:
+            return v_
+        if n['k'] == 'Bin':
+            op = n['op']
+            if op == '&&':
+                return int(bool(ev(n['l'], env)) and bool(ev(n['r'], env)))
+            if op == '||':
+                return int(bool(ev(n['l'], env)) or bool(ev(n['r'], env)))
+            x_, y_ = ev(n['l'], env), ev(n['r'], env)
+            return {'==': lambda: int(x_ == y_), '!=': lambda: int(x_ != y_), '<': lambda: int(x_ < y_), '<=': lambda: int(x_ <= y_), '>': lambda: int(x_ > y_), '>=': lambda: int(x_ >= y_),
+                    '+': lambda: x_ + y_, '-': lambda: x_ - y_, '&': lambda: x_ & y_, '|': lambda: x_ | y_}.get(op, lambda: (_ for _ in ()).throw(Unknown(op)))()
+        if n['k'] == 'Un' and n.get('op') == '!':
+            return int(not ev(n['e'], env))
+        with astq.renaming(ren), astq.nocasts():
+            key = re.sub(r'\(randomx::SuperscalarInstructionType\)', '', showv(n))
+        if key in env:
+            return env[key]
+        raise Unknown(key)
+
+    all_paths = _dec.paths(lp['b'])
+
+    def admits(p_):
+        for e_ in p_.events:
+            if isinstance(e_, tuple):
+                continue
+            for c in calls(e_):
+                if c.get('name') in ('push_back', 'emplace_back') and c.get('a') and ref_id(c['a'][0]) == lv:
+                    return True
+        return False
+    if not any(admits(p_) for p_ in all_paths):
+        raise AnalysisBroken('SS-RULES: no path of the register loop in selectDestination adds the register to the candidates')
+    bad = []
+    n = 0
+    cyc = 5
+    for lat, reuse_, i_, src_, chain, (ty, grp), lastg, lastp, par in itertools.product((4, 5, 6), (0, 1), (0, r5), (-1, 0, r5), (0, 1), sorted(pairs), groups + [inval], (-1, 3), (-1, 3)):
+        env = {'REGS[I].latency': lat, 'CYCLE': cyc, 'this->canReuse_': reuse_, 'I': i_, 'this->src_': src_, 'CHAIN': chain, 'this->opGroup_': grp, 'REGS[I].lastOpGroup': lastg,
+               'REGS[I].lastOpPar': lastp, 'this->opGroupPar_': par, 'this->info_.getType()': ty, 'this.getType()': ty}
+        want = lat <= cyc and (reuse_ or i_ != src_) and (chain or grp != mul or lastg != mul) and (lastg != grp or lastp != par) and (ty != adds or i_ != r5)
+        got = None
+        try:
+            for p_ in all_paths:
+                if all(bool(ev(c_, env)) == t_ for c_, t_ in p_.conds):
+                    got = admits(p_)
+                    break
+        except Unknown as u:
+            raise AnalysisBroken('SS-RULES: selectDestination tests %s, which is not one of the quantities of spec 6.3.4' % u)
+        n += 1
+        if bool(want) != bool(got) and len(bad) < 3:
+            bad.append(dict(latency=lat, cycle=cyc, canReuse=reuse_, i=i_, src=src_, allowChainedMul=chain, type=ty, opGroup=grp, lastOpGroup=lastg, lastOpPar=lastp, opGroupPar=par, spec_admits=bool(want), code_admits=got))
+    R.check(not bad, 'selectDestination admits a register exactly under the five conditions of spec 6.3.4 (%d combinations)' % n, where,
+            expected='ready at the cycle; dst != src unless reuse allowed; no chained IMUL_R unless allowChainedMul; last operation or its parameter differs; not r5 for IADD_RS', found=bad or 'agrees')
+
 
 
 def size_local(f):
